@@ -73,6 +73,22 @@ func (g *Gen) verifyClosure(b *Block) {
 		}
 		return true
 	})
+	// variables of the enclosing function that are in scope at the literal but not used in its
+	// body may still be mentioned by the contract: symbolic as well
+	for id, obj := range g.P.Info.Defs {
+		v, ok := obj.(*types.Var)
+		if !ok || v.IsField() || seen[v] {
+			continue
+		}
+		if id.Pos() < fd.Pos() || id.Pos() >= lit.Pos() {
+			continue
+		}
+		if _, has := st.vars[v]; has {
+			continue
+		}
+		seen[v] = true
+		u.freshParam(st, v)
+	}
 	u.assumeWF(st)
 	for _, c := range b.clauses("captures") {
 		e := u.specEv(st, u.bodyPos)
